@@ -90,7 +90,9 @@ func parseTagtool(s *Sexp) (flags [3]bool, structs [][]ttField, err error) {
 
 func renderGoFile(structs [][]ttField) string {
 	var b strings.Builder
-	b.WriteString("package x\n\n")
+	// an unsorted import block and number literals in the forms gofmt rewrites: the tool's
+	// output must be gofmt-formatted whatever the input looked like
+	b.WriteString("package x\n\nimport (\n\t\"time\"\n\t\"strings\"\n\t\"os\"\n)\n\nconst (\n\tmaskX = 0XFF\n\tbigE  = 1E3\n\toct   = 0O17\n)\n\nvar _ = strings.ToUpper\nvar _ = os.Getenv\nvar _ time.Duration\n\n")
 	for i, fs := range structs {
 		fmt.Fprintf(&b, "type T%d struct {\n", i)
 		for _, f := range fs {
@@ -396,7 +398,7 @@ func (g *Gen) ttStruct() *Sexp {
 		emb := ""
 		switch g.r.Intn(16) {
 		case 0:
-			emb = g.r.Pick("Inner", "*Inner", "other")
+			emb = g.r.Pick("Inner", "*Inner", "other", "time.Time", "*time.Duration", "os.FileMode")
 		case 1:
 			if !g.r.P(25) {
 				names = []*Sexp{A(hxs(fmt.Sprintf("F%d", i)))}
@@ -476,6 +478,9 @@ func tagtoolEligibility(flags [3]bool, op *Sexp, after string) []string {
 				continue
 			}
 			name := strings.TrimLeft(string(emb), "*")
+			if i := strings.LastIndexByte(name, '.'); i >= 0 {
+				name = name[i+1:] // an embedded pkg.T is named T
+			}
 			if len(names) == 1 {
 				b, _ := unhx(names[0].Atom)
 				name = string(b)
